@@ -1,6 +1,7 @@
 import PyrollModel.Handover
 import PyrollModel.EvalDriver
 import PyrollModel.Gen.C06
+import PyrollModel.HandoverGen
 /-
   Line-protocol driver of the C06 models.
 
@@ -15,6 +16,15 @@ import PyrollModel.Gen.C06
         unit  = U <inOwners> <outOwners> <inImpl> <outImpl> <inDefault> <#pre> <#post> <#subs>  followed by that many units
         owners = `-` | a,b,…
       answers `ok in;out in;out …` (pre-order, dicts as above) or `AttributeError <hook>`
+    H2 <hidden prefix> <extra root hooks> <dict> <cache> <unit> | <dict> <cache> <unit>
+                                        the same unit object solved twice (`Handover.solveTwice` with the generated
+                                        re-use policy `Handover.genReuse`): the unit as observed after the first solve on
+                                        the first object, then as observed after the second solve on the second object;
+                                        answers the trace of the SECOND solve, or `AttributeError1 <hook>` /
+                                        `AttributeError <hook>` when the first / second solve fails in the model
+    I <hidden prefix> <extra root hooks> <outOwners> <previous out dict | none> <incoming dict>
+                                        `Handover.initOut genReuse`: the out profile's `__dict__` after `init_solve`
+                                        (entries in order)
 -/
 namespace HandoverDriver
 open Handover Proto
@@ -67,6 +77,27 @@ def handle (line : String) : String :=
       | .ok r => "ok " ++ " ".intercalate (r.trace.map fun p => showDict p.1 ++ ";" ++ showDict p.2)
       | .error k => "AttributeError " ++ k
     | _, _, _, _ => "bad-op"
+  | "H2" :: pfx :: extra :: d :: c :: rest =>
+    match parseDict d, parseDict c, parseUnit rest, parseExtra extra with
+    | some d, some c, some (u, "|" :: d2 :: c2 :: rest2), some ex =>
+      match parseDict d2, parseDict c2, parseUnit rest2 with
+      | some d2, some c2, some (u2, []) =>
+        let hooks := Gen.C06.rootHooks ++ ex
+        let priv := fun (k : String) => k.startsWith pfx
+        match runM genReuse hooks priv u .fresh (Obj.template { dict := d, cache := c }) with
+        | .error k => "AttributeError1 " ++ k
+        | .ok (_, m) =>
+          match runM genReuse hooks priv u2 m (Obj.template { dict := d2, cache := c2 }) with
+          | .ok (r, _) => "ok " ++ " ".intercalate (r.trace.map fun p => showDict p.1 ++ ";" ++ showDict p.2)
+          | .error k => "AttributeError " ++ k
+      | _, _, _ => "bad-op"
+    | _, _, _, _ => "bad-op"
+  | ["I", pfx, extra, oo, prev, p1] =>
+    match parseExtra extra, (if prev = "none" then some none else (parseDict prev).map some), parseDict p1 with
+    | some ex, some prev, some p1 =>
+      showDict (initOut genReuse (fun (k : String) => k.startsWith pfx)
+        (applies (parseOwners oo) (Gen.C06.rootHooks ++ ex)) prev p1)
+    | _, _, _ => "bad-op"
   | "sum" :: name :: rest =>
     match Gen.C06.sumImpls.find? (fun p => p.1 = name), floats rest with
     | some (_, i), some xs =>
